@@ -126,10 +126,13 @@ def enumerate_cases(tier, seed):
                     if entry == "every_step" and lay != a_lay[0]:
                         continue
                     for dt0 in ([5 / 16] if quick else [5 / 16, 1 / 64]):
-                        cases.append(dict(id=f"answers/{entry}/{cn}/clip{int(clip)}/L{''.join(map(str, lay)) or '-'}/dt0_{dt0}/b{bound}",
+                        # deviation bound 3 for the coarse initial step (runs of <= ~8 choice points); with dt0 = 1/64 a run has several
+                        # times as many choice points and bound 3 would need > 1e5 runs per configuration: bound 2 there
+                        b = bound if dt0 == 5 / 16 else 2
+                        cases.append(dict(id=f"answers/{entry}/{cn}/clip{int(clip)}/L{''.join(map(str, lay)) or '-'}/dt0_{dt0}/b{b}",
                                           group=f"a/{cn}/{int(clip)}/{len(lay)}/{entry}/{dt0}", mode="answers", entry=entry, controller=cn,
-                                          eps="eps_dyadic", clip=clip, dt0=dt0, layout=lay, bound=bound,
-                                          max_points=8 if quick else 9, weight=600 if quick else 6000))
+                                          eps="eps_dyadic", clip=clip, dt0=dt0, layout=lay, bound=b,
+                                          max_points=8 if b == 2 else 7, weight=600 if b == 2 else 8000))
     # ---- bfs mode
     for lay in ([[0, 2, 3, 5]] if quick else [[0, 2, 3, 5], [1, 3, 4, 6], [0, 1, 2, 3, 4, 5, 6]]):
         for clip in (False, True):
